@@ -15,7 +15,7 @@
 //	     style: 0 flow single-quoted, 1 flow unquoted where safe, 2 JSON, 3 block
 //	load <routes>                                                             -> ok | err
 //	     routes: r;r;…  r = mutenames/activenames, names ','-joined hex
-//	z <unix> <zonehex,zonehex…>                                               -> zone:off:y:m:d:wd:h:mi:dim …
+//	z <unix> <zonehex,zonehex…>                                               -> zone:off:y:m:d:wd:h:mi:dim:dimloc …   (dim: month length, calendar; dimloc: the pinned expression evaluated in the zone, diagnostic)
 //	c <unix> <callerzonehex>                                                  -> bits.bits.…   (one group per set, '-' empty set)
 //	m <unix> <names>                                                          -> <0|1> <names|-> | err
 //	st <unix|nonow> <a|m|p> <mutenames|nokey> <activenames|nokey> <n> <route> -> <nout> <err> <muted> <markernames|->
@@ -387,8 +387,10 @@ func (w *world) configYAML(routes string) string {
 func civil(t time.Time) string {
 	// month length by Go's own date normalisation, evaluated in UTC (pure calendar)
 	dim := time.Date(t.Year(), t.Month()+1, 0, 12, 0, 0, 0, time.UTC).Day()
+	// diagnostic only: the same expression evaluated in t's location, as the pinned daysInMonth does (F9)
+	dimLoc := time.Date(t.Year(), t.Month()+1, 0, 12, 0, 0, 0, t.Location()).Day()
 	_, off := t.Zone()
-	return fmt.Sprintf("%d:%d:%d:%d:%d:%d:%d:%d", off, t.Year(), int(t.Month()), t.Day(), int(t.Weekday()), t.Hour(), t.Minute(), dim)
+	return fmt.Sprintf("%d:%d:%d:%d:%d:%d:%d:%d:%d", off, t.Year(), int(t.Month()), t.Day(), int(t.Weekday()), t.Hour(), t.Minute(), dim, dimLoc)
 }
 
 func names(tok string) []string {
